@@ -21,8 +21,8 @@
 (* relative.  RelFirst = the Python-2 style "package-relative first" lookup *)
 (* (only used to classify a wrong observation).                             *)
 (*                                                                          *)
-(* Atoms are symbolic; harness/checks/c46.py renders them (table ATOM_TEXT  *)
-(* there, texts quoted below) and cross-checks the lexical claims of this   *)
+(* Atoms are symbolic; harness/lib_deptree.py renders them (render_source,  *)
+(* texts quoted below); c46.py cross-checks the lexical claims of this      *)
 (* grammar with CPython's tokenize module (oracle P) on every case.         *)
 EXTENDS Naturals, Sequences, FiniteSets, TLC, Json
 
